@@ -46,8 +46,11 @@ func CreateEvaluator(expression string, opts ...Option) (*Evaluator, error) {
 		return nil, err
 	}
 
+	expr := ast.(grammar.Expression)
+	precompileRegexps(expr)
+
 	eval := &Evaluator{
-		ast:                     ast.(grammar.Expression),
+		ast:                     expr,
 		tagName:                 parsedOpts.withTagName,
 		valueTransformationHook: parsedOpts.withHookFn,
 		unknownVal:              parsedOpts.withUnknown,
